@@ -298,6 +298,25 @@ func (w *World) forge(ctx context.Context, toks []string) {
 		w.lastForged = name + "!"
 		w.printf("forged %d %s!\n", a, name)
 		return
+	case "wronghash":
+		// an exact copy of a genuine entry — signature and all — that claims another address (the signature
+		// does not cover the hash). Written `eN~` in the trace; exists only inside messages.
+		name := w.declareForged(a, e)
+		t := e.Copy().(*entry.Entry)
+		other := w.firstServedEntry()
+		if other == nil || other.GetHash().Equals(e.GetHash()) {
+			w.lastForged = "e0"
+			w.printf("forged %d err nothing-to-claim\n", a)
+			return
+		}
+		t.SetHash(other.GetHash())
+		if w.tampered == nil {
+			w.tampered = map[string]ipfslog.Entry{}
+		}
+		w.tampered[name+"~"] = t
+		w.lastForged = name + "~"
+		w.printf("forged %d %s~\n", a, name)
+		return
 	default:
 		panic("unknown recipe " + recipe)
 	}
